@@ -369,11 +369,33 @@ def time_at_elevation(
 
     zenith = 90 - elevation
     try:
-        return time_of_transit(
+        tot = time_of_transit(
             observer, date, zenith, direction, with_refraction
         ).astimezone(
             tzinfo  # type: ignore
         )
+
+        # If the dates don't match search on either the next or previous day.
+        tot_date = tot.date()
+        if tot_date != date:
+            if tot_date < date:
+                delta = datetime.timedelta(days=1)
+            else:
+                delta = datetime.timedelta(days=-1)
+            new_date = date + delta
+
+            tot = time_of_transit(
+                observer, new_date, zenith, direction, with_refraction
+            ).astimezone(
+                tzinfo  # type: ignore
+            )
+            # Still can't get a time then raise the error
+            tot_date = tot.date()
+            if tot_date != date:
+                raise ValueError(
+                    "Unable to find a time at the elevation on the date specified"
+                )
+        return tot
     except ValueError as exc:
         if exc.args[0] == "math domain error":
             raise ValueError(
@@ -1071,12 +1093,11 @@ def twilight(
     if date is None:
         date = today(tzinfo)  # type: ignore
 
-    start = time_of_transit(observer, date, 90 + 6, direction,).astimezone(
-        tzinfo  # type: ignore
-    )
     if direction == SunDirection.RISING:
+        start = dawn(observer, date, 6, tzinfo)
         end = sunrise(observer, date, tzinfo).astimezone(tzinfo)  # type: ignore
     else:
+        start = dusk(observer, date, 6, tzinfo)
         end = sunset(observer, date, tzinfo).astimezone(tzinfo)  # type: ignore
 
     if direction == SunDirection.RISING:
@@ -1119,12 +1140,8 @@ def golden_hour(
     if date is None:
         date = today(tzinfo)  # type: ignore
 
-    start = time_of_transit(observer, date, 90 + 4, direction,).astimezone(
-        tzinfo  # type: ignore
-    )
-    end = time_of_transit(observer, date, 90 - 6, direction,).astimezone(
-        tzinfo  # type: ignore
-    )
+    start = time_at_elevation(observer, -4, date, direction, tzinfo)
+    end = time_at_elevation(observer, 6, date, direction, tzinfo)
 
     if direction == SunDirection.RISING:
         return start, end
@@ -1165,12 +1182,8 @@ def blue_hour(
     if date is None:
         date = today(tzinfo)  # type: ignore
 
-    start = time_of_transit(observer, date, 90 + 6, direction,).astimezone(
-        tzinfo  # type: ignore
-    )
-    end = time_of_transit(observer, date, 90 + 4, direction,).astimezone(
-        tzinfo  # type: ignore
-    )
+    start = time_at_elevation(observer, -6, date, direction, tzinfo)
+    end = time_at_elevation(observer, -4, date, direction, tzinfo)
 
     if direction == SunDirection.RISING:
         return start, end
